@@ -198,6 +198,18 @@ CLAIMED = {
              "whose exception follows a call into the stub is discarded and counted; partd is not "
              "fault-injected; p2p shuffle needs distributed.",
         ref="DESIGN.md §4 C40"),
+    "C47": dict(
+        technique="deterministic simulation with fault injection (E1 + SimFS): to_csv / read_csv under simulated "
+                  "schedulers and completion schedules, injected OSError at the k-th open/read/write",
+        text="PARTIAL (CSV only; parquet cannot run without pyarrow and is not claimed): single_file output "
+             "must equal pandas.to_csv of the whole frame for every completion schedule (the appends are "
+             "separate tasks chained only by depend_on), per-partition files must equal the partitions' "
+             "to_csv, read_csv(blocksize down to 8 bytes or None) must equal pandas.read_csv of the same text "
+             "including quoted fields near block boundaries, the round trip must reproduce ints, exact floats "
+             "and strings; with an injected I/O error the call raises that error or is exact; no handle leaks.",
+        note="SimFS replaces the disk; the read oracle is pandas.read_csv of the written text; embedded newlines "
+             "only with blocksize=None; no NA in integer columns (documented dtype-inference limitation).",
+        ref="DESIGN.md §4 C47"),
 }
 
 NA = {
